@@ -15,10 +15,17 @@ checks = {
  "C02": seq("Same engine over the 'tail' alphabet (publish 0-2, delete last / first / all / whole head / whole reader segment, reopen plain/Recover/Check/with indexes removed, Sync) for 4 index configurations x V1/V2 plus the core family: Publish must return model.Next+n and write back exactly the offsets in between over the bogus ones supplied, NextOffset/Sync must equal the model counter after every step, unique value tags make any reuse visible in the scan.", "DESIGN.md 4/C02"),
  "C03": seq("At every state of the core/cfg/roll/tail families: Consume(o,m) for every o in [-5,Next+2] and m in {1,2,3,40} (thorough 1..40) judged by the result-driven cursor rule on the list model, plus cursor walks that must visit every live message once and end at NextOffset.", "DESIGN.md 4/C03"),
  "C04": seq("At every state of the core/cfg/roll/tail families: Get(o) for every o in [0,Next+2] and both relative offsets, classified live / deleted (ErrNotFound) / unassigned (ErrInvalidOffset) against the list model.", "DESIGN.md 4/C04"),
+ "C07": dict(engine="dmgx", cat="fault_enumeration", technique="exhaustive enumeration of the damage space vs independent reference parser",
+   text="For every base head segment (4 record shapes x 4 index layouts, V2; V1 for truncation and index damage) built by the real writer, the complete damage space is enumerated: truncation to every length, every byte after the file header altered three ways, zero / 0xFF / pseudo-random tails of every length up to two records, index missing / truncated to every length / every byte inverted / extra plausible items / other layout. Each case goes through klevdb.Recover and through Open(Recover)+Close on the real code; an independent parser of the documented format says how many leading records are valid. Oracle: log after Recover is exactly that prefix, index (if present) equals the derived one, no temp file remains, undamaged segments are byte-identical, Check/Open(Check) before recovery succeed iff the reference parser consumes the whole file and the index is absent or equal, Check succeeds after Recover and after one more real Publish, and the scan returns k+1 messages.",
+   ref="DESIGN.md 3.3, 4/C07", note="Bounds: segments of 1-4 records with key/value lengths from {0,1,3,40}; single-byte corruption (three replacement values per byte), not multi-byte. Trusted base: the reference parser (cross-checked against klevdb by C13), tmpfs."),
+ "C14": dict(engine="dmgx", cat="fault_enumeration", technique="exhaustive enumeration of in-place damage vs undamaged model",
+   text="Three-segment V2 logs with both indexes (2 records per segment; thorough also 3) built by the real writer; damage applied to one .log file at a time with the index files intact: every single-bit flip of every byte, every start x length 1..8 overwritten with zeros / 0xFF / pseudo-random / a copy of the preceding bytes, truncation to every length, every zero-filled suffix. After each: fresh Open with default options and the full read sweep (Consume at every offset x 3 counts, Get, GetByKey, ConsumeByKey from every offset, GetByTime at every microsecond). Oracle: a call whose undamaged answer contains an overwritten record must fail; a call answered entirely from other segment files must return exactly what it returned before; any message returned equals the published one in every field; no panic; bytes allocated per call bounded by 4 x file size + 1 MiB.",
+   ref="DESIGN.md 3.3, 4/C14", note="Bounds: 6-9 messages of 40 bytes; damage to one file at a time; the allocation clause is a measurement (runtime/metrics) with a stated threshold inside the exhaustive loop. Trusted base: reference parser, tmpfs."),
  "C09": seq("BFS over the 'collide' alphabet whose key set contains three genuine FNV-1a-64 collisions between distinct 8-byte keys (re-verified against index.KeyHash at start), nil and empty keys and an absent key whose hash is present; at every state GetByKey/OffsetByKey for every key, a ConsumeByKey cursor per key and ConsumeByKey from every start offset, against the list model.", "DESIGN.md 4/C09"),
  "C10": seq("BFS over the 'times' alphabet (non-decreasing times with equal runs that straddle segment boundaries, deletes, reopen, Recover, index rebuild) plus the core/cfg/roll/inputs/helpers families; at every state GetByTime/OffsetByTime for every microsecond from min-2 to max+2 against the list model; ErrNoIndex without the index.", "DESIGN.md 4/C10"),
  "C11": seq("At every close point of the 'ixfiles' histories (publish, deletes incl. whole head, Recover, read-only round trip, index removal, Migrate; 4 index configs, V1/V2): every index file is compared item by item with the index an independent reference codec derives from its log file, and copies of the directory with each single index file / all (thorough: every subset) removed are opened read-write and read-only and must answer the full observation identically (differential fingerprints), including Stat right after Open.", "DESIGN.md 4/C11"),
  "C12": seq("BFS over the 'del' alphabet; at every state, as leaves: DD(S) (Delete twice) for every subset S of [0,Next+1], sets with relative offsets, DeleteMulti and DeleteMultiOffsets for every subset of the live offsets; every Delete pass is judged by the result-driven rule (returned subset of requested and live, byte-identical content, size = sum of storage sizes in the version of the segment the message was in), followed by a scan that must equal model minus returned.", "DESIGN.md 4/C12"),
+ "C13": seq("Two exhaustive parts in one run. (1) codecx: every key length x value length in the tier's grid (thorough 0..300 squared) x 6 boundary times (min/max int64 us, -1, 0, 1, 1e15) x 4 base offsets x V1/V2, written back to back with the real message.Writer and index.Writer (4 layouts): reported positions, file bytes and Size() compared with an independent encoder of the documented layout, and the reference bytes read back through the file reader and the mmap reader. (2) seqx: Stat (handle and package level) against the model and os.Stat on every state of the core/cfg/roll/inputs families, and directory growth of every Publish against Log.Size.", "DESIGN.md 3.5, 4/C13", technique="exhaustive small-domain enumeration vs independent reference codec + explicit-state BFS for Stat"),
  "C15": seq("BFS over a times-style alphabet (holes, multi-segment, empty head, index rebuild); at every state FindByOffset/Count/Size/Age for every bound in covering sets (as observation), and as leaves every Trim* / Trim*Multi / Trim*MultiOffsets call for the same bounds: selected set must be a prefix of the live sequence, exactly that prefix is removed, and the bound-specific predicate holds afterwards.", "DESIGN.md 4/C15"),
  "C16": seq("BFS over the 'kv' alphabet (keys a, b, nil; values and tombstones; equal and increasing times; deletes; reopen) with up to two (thorough three) compaction letters per history: CompactUpdates/CompactDeletes in single, Multi and MultiOffsets form for every cut-off from min-1 to max+1, and Compact(age); key->latest-value map identical before/after, removed sets satisfy the property's membership predicates.", "DESIGN.md 4/C16"),
  "C17": seq("BFS over the 'versions' alphabet: publish, deletes, 8 reopen letters re-drawing NewSegmentsVersion x KeepRewriteVersion x EagerVersionMigrate, Migrate to V1/V2 once and twice, for 4 index configs starting from V1 and V2; full observation against the list model after every letter plus the version byte of every segment file (read by the harness) against what the options demand.", "DESIGN.md 4/C17"),
@@ -40,6 +47,8 @@ def main():
       },
       "engines": [
         {"name": "seqx", "path": "h/seqx", "serves_properties": [k for k,v in checks.items() if v["engine"]=="seqx"], "kind_free_text": "explicit-state BFS over API histories, real code vs list model, replay-from-scratch successors, canonical state keys"},
+        {"name": "dmgx", "path": "h/dmgx", "serves_properties": [k for k,v in checks.items() if v["engine"]=="dmgx"], "kind_free_text": "exhaustive enumeration of byte damage (truncation, bit flips, overwrites, tails, index damage) on segments written by the real code, judged by an independent reference parser"},
+        {"name": "codecx", "path": "h/codecx", "serves_properties": ["C13"], "kind_free_text": "exhaustive small-domain round trips of record and index formats vs independent reference codec"},
       ],
       "checks": [],
       "notes": "All checks run ./check <ID> <tier>, which regenerates the overlay from /repo's current working tree, rebuilds the harness and explores. Evidence is rewritten by every run.",
